@@ -6,7 +6,7 @@ from hypothesis import strategies as st
 from cpverif import conform as C
 from cpverif import model as M
 from cpverif import strategies as G
-from cpverif.core import Ctx, Part, hyp_part
+from cpverif.core import Ctx, Part, enum_part, hyp_part
 from cpverif.lib import L
 
 RULE = (
@@ -34,6 +34,7 @@ FRAGS = G.UNICODE_ODDITIES + G.MARKUP_ODDITIES + ["lyric", "lyric ", "section", 
          "LYRIC ", "x\"y", '" ']
 _joined = st.lists(st.sampled_from(FRAGS), min_size=0, max_size=5).map("".join)
 _noquote = st.lists(st.sampled_from([f for f in FRAGS if '"' not in f]), min_size=0, max_size=5).map("".join)
+_LONG_TEXTS = ["a" * 70000, "lyric " + "la " * 25000, "section " + "x" * 66000]
 texts = st.one_of(
     _joined,
     _noquote,
@@ -251,7 +252,19 @@ def check_line(ctx: Ctx, ln) -> None:
              classes=[f"kind_{kind}"], sample={"line": line, "kind": kind, "value": val})
 
 
+def long_cases(ctx: Ctx):
+    """Lines longer than any plausible line buffer or length guard (2^16 characters and beyond)."""
+    for pad in G.HUGE_PADS:
+        for lp, rp in ((pad, ""), ("", pad), (pad, pad[:66000])):
+            for tx in ("section Intro", "lyric la", "phrase_start"):
+                yield {"lp": lp, "z": 0, "tick": 96, "text": tx, "rp": rp}
+    for tx in _LONG_TEXTS:
+        yield {"lp": "  ", "z": 0, "tick": 96, "text": tx, "rp": ""}
+        yield {"lp": "\t", "z": 2, "tick": 10 ** 30, "text": tx, "rp": " "}
+
+
 PARTS: list[Part] = [
+    enum_part("long", long_cases, check_line, {"quick": 2, "thorough": 2}),
     hyp_part("sections", strat_sections, check_section, {"quick": 500, "thorough": 4000},
              {"quick": 6, "thorough": 16}),
     hyp_part("lines", strat_lines, check_line, {"quick": 2500, "thorough": 40000},
